@@ -125,4 +125,62 @@ theorem before_window (sc : Scalar S) (first : S) (newSteps : List S) (i : Nat) 
   have := List.not_of_lt_findIdx (p := fun t => leS sc first t) (xs := newSteps) hi
   simpa using this
 
+/-! ### every interpolation kind (the interpolant itself — scipy — is a parameter) -/
+
+/-- frame count and rate, for every interpolation kind -/
+theorem interp_frames_fps_any_kind (sc : Scalar S) (isZero : S → Bool) [Inhabited S] (kind : List S → List (List S) → S → List S) (newFps : S) (newFrames : Nat) (b r : PBody S)
+    (h : interpolateBodyWith sc isZero kind newFps newFrames b = some r) : r.fps = newFps ∧ r.data.length = newFrames ∧ r.conf.length = newFrames ∧ b.data.length ≠ 1 := by
+  unfold interpolateBodyWith at h
+  simp only [] at h
+  split at h
+  · cases h
+  · rename_i hF
+    simp only [Option.some.injEq] at h
+    subst h
+    exact ⟨rfl, by simp [mkBody], by simp [mkBody], hF⟩
+
+/-- **for every interpolation kind a track receives values only inside its window**: outside `[first new step ≥ first observation, first new step > last observation)`
+    the rows are all zero — zero confidence, hence missing — and a never observed point is zero everywhere -/
+theorem track_zero_outside_window_any_kind (sc : Scalar S) (kind : List S → List (List S) → S → List S) (steps newSteps : List S) (rows : List (Option (List S))) (width i : Nat)
+    (hi : i < newSteps.length) :
+    let obs := (steps.zip rows).filterMap fun (s, r) => r.map fun v => (s, v)
+    (obs = [] → (interpTrackWith sc kind steps newSteps rows width)[i]? = some (List.replicate width sc.zero)) ∧
+    (∀ first v rest, obs = (first, v) :: rest →
+      let last := ((obs.getLast?.map (·.1)).getD first)
+      (i < firstIdx (fun t => leS sc first t) newSteps ∨ firstIdx (fun t => sc.lt last t) newSteps ≤ i) →
+        (interpTrackWith sc kind steps newSteps rows width)[i]? = some (List.replicate width sc.zero)) := by
+  intro obs
+  constructor
+  · intro hnil
+    unfold interpTrackWith
+    simp only [show ((steps.zip rows).filterMap fun (s, r) => r.map fun v => (s, v)) = [] from hnil]
+    simp [hi]
+  · intro first v rest hobs last hout
+    unfold interpTrackWith
+    simp only [show ((steps.zip rows).filterMap fun (s, r) => r.map fun v => (s, v)) = (first, v) :: rest from hobs]
+    simp only [List.getElem?_mapIdx, List.getElem?_eq_getElem hi, Option.map_some]
+    have hlast : ((((first, v) :: rest).getLast?.map (·.1)).getD first) = last := by simp only [last, hobs]
+    rw [hlast]
+    rcases hout with h | h
+    · rw [if_neg (by omega)]
+    · rw [if_neg (by omega)]
+
+/-- **inside the window the values are the interpolant's, evaluated on the observed samples only**; so an interpolant that reproduces its samples (`kind xs ys xs[j] = ys[j]`,
+    what "interpolation" means for every scipy kind) makes the result the identity at every new step that coincides with an observed one — in particular at an unchanged rate -/
+theorem track_identity_at_observations (sc : Scalar S) (kind : List S → List (List S) → S → List S) (steps newSteps : List S) (rows : List (Option (List S))) (width i j : Nat)
+    (hi : i < newSteps.length)
+    (first : S) (v : List S) (o2 : S × List S) (rest : List (S × List S))
+    (hobs : ((steps.zip rows).filterMap fun (s, r) => r.map fun v => (s, v)) = (first, v) :: o2 :: rest)
+    (hin : firstIdx (fun t => leS sc first t) newSteps ≤ i ∧
+      i < firstIdx (fun t => sc.lt ((((first, v) :: o2 :: rest).getLast?.map (·.1)).getD first) t) newSteps)
+    (hj : j < ((first, v) :: o2 :: rest).length) (ht : newSteps[i] = (((first, v) :: o2 :: rest).map (·.1))[j]'(by simpa using hj))
+    (hk : ∀ (xs : List S) (ys : List (List S)) (k : Nat) (h1 : k < xs.length) (h2 : k < ys.length), kind xs ys xs[k] = ys[k]) :
+    (interpTrackWith sc kind steps newSteps rows width)[i]? = some ((((first, v) :: o2 :: rest).map (·.2))[j]'(by simpa using hj)) := by
+  unfold interpTrackWith
+  simp only [hobs]
+  simp only [List.getElem?_mapIdx, List.getElem?_eq_getElem hi, Option.map_some]
+  rw [if_pos hin, ht]
+  congr 1
+  exact hk _ _ j (by simpa using hj) (by simpa using hj)
+
 end PoseVerif.Props.C14
